@@ -2,7 +2,7 @@
 
 The trie is exported from the implementation through its public iterator; TLC model-checks the
 whole graph (spec/Book.tla): from the standard start every edge must be a legal promotion-free move
-of layer R in the position its path reaches, every leaf lies at depth 8, children stay inside the
+of layer R in the position its path reaches, no path is longer than 64 plies (termination), children stay inside the
 table.  The harness's own walk (move_new along every edge, debug assertions on) must reach, at
 every node, the position text the specification computes.  Finite and complete in both tiers."""
 import json
@@ -60,7 +60,11 @@ def run(ctx):
     ctx.cov["traces_validated_against_impl"] += len(w)
     ctx.cov["exhaustive"] = True
     ctx.cov["steps"].append({"step": "book", "nodes": cnt["nodes"], "edges": cnt["edges"], "spec_states": res["distinct"]})
-    leaf = next((e for e in w if e["depth"] == 8), None)
+    depths = sorted({e["depth"] for e in w if e["node"] not in {x["node"] for x in w if False}})
+    leaf_nodes = {i + 1 for i, n in enumerate(json.load(open(book))["nodes"]) if not n}
+    leaf_depths = sorted({e["depth"] for e in w if e["node"] in leaf_nodes})
+    ctx.cov["leaf_depths"] = leaf_depths
+    leaf = next((e for e in w if e["node"] in leaf_nodes), None)
     ctx.sample({"direction": "impl->spec and spec->impl", "node": leaf["node"] if leaf else None, "fen_at_leaf": leaf["fen"] if leaf else None})
     os.remove(res["out_path"])
     ctx.assumptions += ["TLC evaluates the specification correctly",
